@@ -49,8 +49,18 @@ pub enum Call {
     /// `if let Ok(q) = Qualifiers::try_from_iter(pairs) { b.parts.qualifiers = q }`
     PartsQualsFromIter(Vec<(String, String)>),
     /// `match b.clone().build() { Ok(p) => p.into_builder(), Err(_) => b }` — a detour through
-    /// an immutable PURL in the middle of a history
+    /// an immutable PURL in the middle of a history; the PURL is printed, debug-printed, hashed
+    /// and cloned before it is taken apart again (anything cached by those must not outlive a
+    /// later mutation)
     Rebuild,
+    /// `if q.contains_key(k) { q[k] = v.into() }` on `b.parts.qualifiers` (IndexMut)
+    PartsQualIndexMut(String, String),
+    /// `if let Some(x) = q.get_mut(k) { *x = v.into() }`
+    PartsQualGetMut(String, String),
+    /// `for (_, x) in q.iter_mut() { x.push_str(s) }`
+    PartsQualIterMutAppend(String),
+    /// `if let Ok(e) = q.entry(k) { e.and_modify(|x| x.push_str(v)).or_insert(v) }`
+    PartsQualEntry(String, String),
 }
 
 /// Field touched by a call, for the commutation check ("calls on different fields commute").
@@ -76,7 +86,8 @@ impl Call {
             Call::Ver(_) | Call::NoVer | Call::PartsVer(_) => Field::Ver,
             Call::Sub(_) | Call::NoSub | Call::PartsSub(_) => Field::Sub,
             Call::Type(_) | Call::PartsType(_) => Field::Type,
-            Call::Qual(k, _) | Call::NoQual(k) | Call::PartsQual(k, _) => {
+            Call::PartsQualIterMutAppend(_) => Field::AllQuals,
+            Call::Qual(k, _) | Call::NoQual(k) | Call::PartsQual(k, _) | Call::PartsQualIndexMut(k, _) | Call::PartsQualGetMut(k, _) | Call::PartsQualEntry(k, _) => {
                 if key_ok(k) {
                     Field::Qual(ascii_lower(k))
                 } else {
@@ -181,6 +192,23 @@ impl BModel {
                 }
             },
             Call::NoQuals => self.quals.clear(),
+            Call::PartsQualIndexMut(k, v) | Call::PartsQualGetMut(k, v) => {
+                if key_ok(k) {
+                    if let Some(x) = self.quals.get_mut(&ascii_lower(k)) {
+                        *x = v.clone();
+                    }
+                }
+            },
+            Call::PartsQualIterMutAppend(sfx) => {
+                for x in self.quals.values_mut() {
+                    x.push_str(sfx);
+                }
+            },
+            Call::PartsQualEntry(k, v) => {
+                if key_ok(k) {
+                    self.quals.entry(ascii_lower(k)).and_modify(|x| x.push_str(v)).or_insert_with(|| v.clone());
+                }
+            },
             Call::Rebuild => {
                 // a successful build normalises the state; a refused one leaves it alone
                 if let Ok(b) = expected_build(self, self.typed) {
@@ -326,6 +354,12 @@ pub fn universe_calls(typed: bool) -> Vec<Call> {
     }
     v.push(Call::Typed(0, None));
     v.push(Call::Rebuild);
+    for k in ["k", "K", "checksum", "!"] {
+        v.push(Call::PartsQualIndexMut(k.into(), "im".into()));
+        v.push(Call::PartsQualGetMut(k.into(), "".into()));
+        v.push(Call::PartsQualEntry(k.into(), "e".into()));
+    }
+    v.push(Call::PartsQualIterMutAppend("+".into()));
     v.push(Call::Typed(4, Some("x".into())));
     v.push(Call::Typed(7, Some("x".into())));
     v.push(Call::Typed(7, None));
@@ -391,7 +425,7 @@ pub fn rand_cs_entries(r: &mut Rng) -> Vec<(String, CsVal)> {
 }
 
 pub fn rand_call(r: &mut Rng, typed: bool) -> Call {
-    match r.below(42) {
+    match r.below(46) {
         0..=3 => Call::Ns(rand_value(r)),
         4 => Call::NoNs,
         5..=8 => Call::Name(rand_value(r)),
@@ -418,6 +452,10 @@ pub fn rand_call(r: &mut Rng, typed: bool) -> Call {
         35 => Call::PartsVer(rand_value(r)),
         36 => Call::PartsSub(rand_value(r)),
         39 => Call::Rebuild,
+        42 => Call::PartsQualIndexMut(rand_key(r), rand_value(r)),
+        43 => Call::PartsQualGetMut(rand_key(r), rand_value(r)),
+        44 => Call::PartsQualIterMutAppend(rand_value(r)),
+        45 => Call::PartsQualEntry(rand_key(r), rand_value(r)),
         37 => {
             if typed {
                 Call::PartsType(r.pick(&model::KNOWN_TYPES).to_string())
@@ -432,6 +470,72 @@ pub fn rand_call(r: &mut Rng, typed: bool) -> Call {
         },
         _ => Call::PartsQual(rand_key(r), rand_value(r)),
     }
+}
+
+/// Every way the harness knows to change one qualifier `k` of a builder.
+pub fn qual_mutations(k: &str, v: &str) -> Vec<Call> {
+    let mut m = vec![
+        Call::Qual(k.into(), v.into()),
+        Call::NoQual(k.into()),
+        Call::NoQuals,
+        Call::PartsQual(k.into(), v.into()),
+        Call::PartsQualIndexMut(k.into(), v.into()),
+        Call::PartsQualGetMut(k.into(), v.into()),
+        Call::PartsQualIterMutAppend(v.into()),
+        Call::PartsQualEntry(k.into(), v.into()),
+        Call::PartsQualsFromIter(vec![(k.into(), v.into())]),
+    ];
+    if let Some(i) = TYPED_KEYS.iter().position(|t| t.eq_ignore_ascii_case(k)) {
+        if TYPED_KEYS[i] != "checksum" {
+            m.push(Call::Typed(i as u8, Some(v.into())));
+            m.push(Call::Typed(i as u8, None));
+        }
+    }
+    m
+}
+
+/// "Observe, take apart, change one thing, put together": a value is built and looked at
+/// (printed, hashed, cloned), converted back into a builder, one field is changed through one
+/// mutation path and nothing else, and the result is built again. Anything a value remembers
+/// about its earlier rendering shows as a disagreement afterwards.
+pub fn stale_hist(r: &mut Rng, typed: bool) -> Hist {
+    let ty = if typed { r.pick(&model::KNOWN_TYPES).to_string() } else { crate::spell::gen_type(r) };
+    let mut calls = Vec::new();
+    if typed || r.chance(1, 2) {
+        calls.push(Call::Ns(rand_value(r)));
+    }
+    let nq = r.range(1, 4);
+    let mut keys = Vec::new();
+    for _ in 0..nq {
+        let k = if r.chance(1, 3) { r.pick(&TYPED_KEYS[..7]).to_string() } else { crate::spell::gen_key(r) };
+        calls.push(Call::Qual(k.clone(), rand_value(r)));
+        keys.push(k);
+    }
+    if r.chance(1, 3) {
+        calls.push(Call::Ver(rand_value(r)));
+    }
+    if r.chance(1, 4) {
+        calls.push(Call::Sub(rand_value(r)));
+    }
+    calls.push(Call::Rebuild);
+    let k = r.pick(&keys).clone();
+    let k = if r.chance(1, 4) { k.to_ascii_uppercase() } else { k };
+    let change = match r.below(10) {
+        0 => Call::Ver(rand_value(r)),
+        1 => Call::Name(rand_value(r)),
+        2 => Call::Ns(rand_value(r)),
+        3 => Call::Sub(rand_value(r)),
+        4 => *r.pick(&[Call::NoVer, Call::NoSub, Call::NoNs].map(Box::new)).clone(),
+        _ => {
+            let m = qual_mutations(&k, &rand_value(r));
+            r.pick(&m).clone()
+        },
+    };
+    calls.push(change);
+    if r.chance(1, 3) {
+        calls.push(Call::Rebuild);
+    }
+    Hist { ty, name: if r.chance(1, 6) { rand_value(r) } else { "n".into() }, calls }
 }
 
 pub fn rand_hist(r: &mut Rng, typed: bool) -> Hist {
